@@ -36,6 +36,14 @@ CHECKS = {
         'note': TB + 'Not decided: that the result is a (reduced) echelon form, rank and null-space values, algebraic laws as value equalities.',
         'technique': 'mirrored-operation pairing, who-may-write, return-path condition analysis, sibling descriptors',
     },
+    'C18': {
+        'text': 'Static: every swap_subtrees is dominated by invalidation of the cached ranks it changes (clearing loop over path(c1,c2), the three '
+                'explicit clears for adjacent parents, or clear_ranks()), move_subtree by clear_ranks(); the surgery primitives are called only from the '
+                'three invalidating moves; every keyed access to the rank cache uses the canonical (min,max) key and the field is private; the annealer '
+                'replaces its best tree only under width < best_width and returns it; the two-distinct-indices idioms are proved by zone-domain abstract interpretation.',
+        'note': TB + 'Not decided: tree validity after surgery, equality of cached and recomputed widths as values, panic freedom of the surgery.',
+        'technique': 'dominance/pairing rule for cache invalidation, who-may-call, canonical-key rule, zone-domain abstract interpretation',
+    },
     'C19': {
         'text': 'Static: in the call-graph closure of each seeded builder every random draw uses the builder\'s own rng field and no other entropy, '
                 'clock, environment source or RandomState iteration is reachable; seed() installs seed_from_u64(seed); every field setter writes '
